@@ -760,7 +760,8 @@ def r3_builders(ctx):
             pname = f.local_name(2)
             ok = lv == {pname} and not _only(v, PLUMB + allow) and not any(x[0] in ("unop", "binop") for x in Q.walk(v))
             if field == "request_body_max_bytes":
-                ok = ok and v[0] == "agg" and v[2] == "Some"
+                # `self.f = Some(x)`, or `self.f.replace(x)` / `.insert(x)` (both store Some(x))
+                ok = ok and ((v[0] == "agg" and v[2] == "Some") or (v[0] == "call" and re.search(r"Option::<T>::(replace|insert)$", v[1]) is not None))
             if field == "tags":
                 ok = ok and v[0] == "call" and re.search(r"Vec::<T, A>::push$", v[1]) is not None
             if field in ("summary", "description"):
